@@ -37,6 +37,15 @@ def isWord (c : Char) : Bool := c.isAlphanum || c == '_'
 
 /-! ### Generic string primitives -/
 
+/-- Insertion sort (structural, so that it computes in the kernel): Python's `sorted` / `list.sort`
+on a total order. -/
+def insertBy {α : Type} (le : α → α → Bool) (x : α) : List α → List α
+  | [] => [x]
+  | y :: ys => if le x y then x :: y :: ys else y :: insertBy le x ys
+
+def isort {α : Type} (le : α → α → Bool) (l : List α) : List α := l.foldr (insertBy le) []
+
+
 /-- `str.split("\n")` as a non-empty list: (first piece, other pieces). -/
 def splitNL' : Str → Str × List Str
   | [] => ([], [])
@@ -150,7 +159,7 @@ def dedup : List Str → List Str
   | x :: xs => if x ∈ dedup xs then dedup xs else x :: dedup xs
 
 /-- Python `sorted(set(tokens))`: code-point lexicographic order. -/
-def sortDedup (l : List Str) : List Str := (dedup l).mergeSort fun a b => decide (a ≤ b)
+def sortDedup (l : List Str) : List Str := isort (fun a b => decide (a ≤ b)) (dedup l)
 
 /-- The loop over the lines: (lines kept, tokens of the isolated hints in reading order). -/
 def scanIsolated : List Str → List Str × List Str
@@ -277,7 +286,7 @@ def spansOf (L : Str) (res : List Entry) : List (Nat × Nat) :=
 
 /-- `HintBuffer.get_result`. -/
 def getResult (res : List Entry) : Sched :=
-  (labelsOf res).map fun L => (L, (spansOf L res).mergeSort spanLe)
+  (labelsOf res).map fun L => (L, isort spanLe (spansOf L res))
 
 /-- `ensure_stack_is_empty` on both buffers, then the two `get_result()`. -/
 def finish (st : Bufs) : Except Err (Sched × Sched) :=
